@@ -126,16 +126,36 @@ func (c *Ctx) kindFact(cond ssa.Value, pos bool) (subject string, kinds []int64,
 			return "", nil, false
 		}
 		cal := x.Common().StaticCallee()
-		if cal == nil || cal.Blocks == nil || len(cal.Blocks) != 1 || cal.Pkg != c.Pkg {
+		if cal == nil || cal.Blocks == nil || cal.Pkg != c.Pkg {
 			return "", nil, false
 		}
-		ret, isRet := cal.Blocks[0].Instrs[len(cal.Blocks[0].Instrs)-1].(*ssa.Return)
-		if !isRet || len(ret.Results) != 1 {
+		for _, f := range c.frames {
+			if f.Common().StaticCallee() == cal {
+				return "", nil, false
+			}
+		}
+		// every way the predicate can answer true carries a kind test of one and the same subject
+		origins, okO := c.verdictOrigins(cal, true)
+		if !okO || len(origins) == 0 || len(origins) > 8 {
 			return "", nil, false
 		}
-		s, ks, ok := c.kindFact(ret.Results[0], true)
-		if !ok {
-			return "", nil, false
+		var s string
+		var ks []int64
+		for _, fs := range origins {
+			found := false
+			for _, f := range fs {
+				if _, isCall := c.resolve(f.cond).(*ssa.Call); isCall {
+					continue // no recursion through further helpers here
+				}
+				if s1, k1, ok1 := c.kindFact(f.cond, f.pos); ok1 && (s == "" || s == s1) {
+					s, found = s1, true
+					ks = append(ks, k1...)
+					break
+				}
+			}
+			if !found {
+				return "", nil, false
+			}
 		}
 		// substitute the callee's parameters by the call's arguments
 		for i := range cal.Params {
@@ -387,6 +407,9 @@ func (c *Ctx) maybeNilParams() map[*ssa.Parameter]string {
 							out[p] = "nil passed at " + c.ipos(in)
 							changed = true
 						} else if pp, ok := ra.(*ssa.Parameter); ok && out[pp] != "" {
+							if c.okAt(a, b) {
+								continue // tested non-nil on the way to this call
+							}
 							out[p] = "maybe-nil parameter passed at " + c.ipos(in)
 							changed = true
 						} else if ph, ok := ra.(*ssa.Phi); ok {
